@@ -76,7 +76,8 @@ def pool(rng):
     ints = [0, 1, -1, -2, 2, 12, 3, 23, 123, 2**61 - 1, 2**61, -(2**61 - 1), 2**64 + 5, 4238894112, 10**30, -10**18]
     vals = [["none"]] + [["bool", b] for b in (True, False)] + [["int", str(i)] for i in ints]
     vals += [["float", f.hex()] for f in (0.0, 1.0, -1.0, 0.5, 1e300, 1.5e-7, float("inf"), 3.141592653589793, 2.0**61)]
-    strs = ["", "a", "A", "ab", "12", "123", "1", "23", "é", "a/b", "/tmp/x.txt", "/tmp/./x.txt", " ", "\n", "0" * 64, "中文"]
+    strs = ["", "a", "A", "ab", "12", "123", "1", "23", "é", "a/b", "/tmp/x.txt", "/tmp/./x.txt", " ", "\n", "0" * 64, "中文",
+            "e\u0301", "M\u00fcller", "Mu\u0308ller", "\u212b", "\u00c5", "\ufb01", "fi", "\u2126", "\u03a9", "/d/\u212b.txt", "/d/\u00c5.txt"]
     vals += [["str", s] for s in strs] + [["path", s] for s in strs if s] + [["bytes", s.encode().hex()] for s in strs]
     scal = list(vals)
     for _ in range(120):
@@ -160,7 +161,9 @@ def run(out, tier, seed, proof):
             out.violation("two different values of one kind have the same state", {"a": a, "b": b, "state": h}, finding_matchers=fid)
     # signatures
     paths = ["/p/a.txt", "/p/b.txt", "/p/sub/a.txt", "/p/a.txt2", "/q/a.txt"]
-    sigs = [["path", p] for p in paths] + [["pickle", p] for p in paths[:2]]
+    upaths = ["/p/M\u00fcller.txt", "/p/Mu\u0308ller.txt", "/p/\u212b.txt", "/p/\u00c5.txt"]   # canonically equivalent, different files
+    sigs = [["path", p] for p in paths + upaths] + [["pickle", p] for p in paths[:2]]
+    sigs += [["task", n, "/p/task_m.py"] for n in ("task_\u00e9", "task_e\u0301")] + [["dir", "/p", q] for q in ("\u00e9*", "e\u0301*")]
     sigs += [["task", n, p] for n in ("task_a", "task_b", "task_a[1]") for p in ("/p/task_m.py", "/p/task_n.py")]
     sigs += [["taskwp", n] for n in ("task_a", "x")]
     sigs += [["dir", r, q] for r in ("/p", "/p/sub", None) for q in ("*.txt", "*.in")]
@@ -193,7 +196,11 @@ def run(out, tier, seed, proof):
         seen.setdefault(a, key)
     # memo key + file states
     memo = [(p, float(m).hex()) for p in paths[:3] for m in (0.0, 1.5, 1700000000.123456)]
-    r = run_impl_worker("impl_hash.py", {"memo": memo, "floats": [m for _, m in memo]})
+    try:
+        r = run_impl_worker("impl_hash.py", {"memo": memo, "floats": [m for _, m in memo]})
+    except RuntimeError as e:      # hash_path is no longer the memoised function the model describes
+        out.disagreement("the memo key of hash_path cannot be observed", {"error": str(e)[-600:]})
+        r = {"floats": [0] * len(memo), "memo": [], "memo_prefix": ""}
     ft2 = {}
     mterms = []
     for (p, m), fhash in zip(memo, r["floats"]):
@@ -212,9 +219,14 @@ def run(out, tier, seed, proof):
     for i in range(30 if tier == "quick" else 300):
         seq, t = [], t0
         conts = [rng.randbytes(rng.randint(0, 20)).hex() for _ in range(3)]
+        back = 0
         for _ in range(rng.randint(2, 6)):
             t += rng.choice([1, 10**6, 10**9])
-            seq.append((rng.choice(["plain", "dot", "updown"]), rng.choice(["a.bin", "b.bin"]), t, rng.choice(conts + [None])))
+            tt = t
+            if rng.random() < 0.3:       # restored backup, clock set back: an older time never seen before
+                back += rng.choice([1, 10**6, 3 * 10**9])
+                tt = t0 - back
+            seq.append((rng.choice(["plain", "dot", "updown"]), rng.choice(["a.bin", "b.bin"]), tt, rng.choice(conts + [None])))
         seqs.append(seq)
     f5 = [("plain", "a.bin", t0, "00"), ("plain", "a.bin", t0, "01")]
     res = run_impl_worker("impl_hash.py", {"states": seqs + [f5]})["states"]
